@@ -131,7 +131,7 @@ func enrollOpen(ct, priv, pub []byte, keyID string) (*types.NodeCredentials, boo
 
 // enrollFetch drives one honest flow up to (not including) the node-side
 // handling of the response. step names the library call that failed.
-func enrollFetch(s *world.Server, flow string, nodeWrap bool, state, params *structpb.Struct, via *world.Node) (res *world.EnrollResult, step string, err error) {
+func enrollFetch(s *world.Server, flow string, nodeWrap bool, state, params *structpb.Struct, via *world.Node, lateToken bool) (res *world.EnrollResult, step string, err error) {
 	res = &world.EnrollResult{}
 	var stateOpt []nodeenrollment.Option
 	if state != nil {
@@ -144,9 +144,18 @@ func enrollFetch(s *world.Server, flow string, nodeWrap bool, state, params *str
 		}
 		res.Token, res.TokID = tok, id
 	}
-	n, err := world.NewNode(nodeWrap, res.Token)
+	nodeTok := res.Token
+	if lateToken {
+		nodeTok = "" // the node generated its credentials before it was given the token
+	}
+	n, err := world.NewNode(nodeWrap, nodeTok)
 	if err != nil {
 		return res, "new-node-credentials", err
+	}
+	if lateToken && res.Token != "" {
+		// the token is supplied at request and handling time (what protocol.Dial does)
+		n.Token = res.Token
+		n.Nonce = tokenBytes(res.Token)
 	}
 	res.Node = n
 	switch flow {
@@ -281,7 +290,7 @@ func enrollCaseBody(c *engine.Ctx, ec enrollCase) {
 		otherFlow = world.FlowToken
 	}
 	// (server side only: its response is kept unhandled, its record is in storage)
-	other, ostep, err := enrollFetch(s, otherFlow, rng.Intn(2) == 0, nil, nil, nil)
+	other, ostep, err := enrollFetch(s, otherFlow, rng.Intn(2) == 0, nil, nil, nil, false)
 	if err != nil {
 		viol("honest-enrollment-error:"+otherFlow+":"+ostep, fmt.Sprintf("honest enrollment of a second node failed at %s: %v", ostep, err))
 		return
@@ -298,7 +307,11 @@ func enrollCaseBody(c *engine.Ctx, ec enrollCase) {
 	} else {
 		params = enrollStruct(ec.State, ec.Salt)
 	}
-	er, step, err := enrollFetch(s, ec.Flow, ec.NodeWrap, state, params, via)
+	lateToken := ec.Flow == world.FlowToken && (ec.Rep+len(ec.Backend)+len(ec.State))%2 == 1
+	if lateToken {
+		r.Count("token_supplied_after_credential_generation", 1)
+	}
+	er, step, err := enrollFetch(s, ec.Flow, ec.NodeWrap, state, params, via, lateToken)
 	if err != nil {
 		viol("honest-enrollment-error:"+ec.Flow+":"+step, fmt.Sprintf("honest enrollment failed at %s: %v", step, err))
 		return
@@ -564,6 +577,13 @@ func enrollCaseBody(c *engine.Ctx, ec enrollCase) {
 		{"shortened", append([]byte{}, info.Nonce[:len(info.Nonce)-1]...)},
 		{"extended", append(append([]byte{}, info.Nonce...), byte(rng.Intn(256)))},
 	}
+	if ln := n.Creds.RegistrationNonce; len(ln) > 0 && !bytes.Equal(ln, info.Nonce) {
+		// the node's locally generated nonce, which is not the one in its signed request
+		nonceVariants = append(nonceVariants, struct {
+			name  string
+			nonce []byte
+		}{"node's-unsent-local-nonce", append([]byte{}, ln...)})
+	}
 	for _, nv := range nonceVariants {
 		m := proto.Clone(got).(*types.NodeCredentials)
 		m.RegistrationNonce = nv.nonce
@@ -789,6 +809,7 @@ func runEnroll(c *engine.Ctx) engine.Result {
 		r.Require(k, n/2)
 	}
 	r.Require("registration_wrapper:false", int64(perFlow[world.FlowAuthorize]+perFlow[world.FlowToken]+perFlow[world.FlowRewrapped])/2)
+	r.Require("token_supplied_after_credential_generation", int64(perFlow[world.FlowToken])/4)
 	r.Require("registration_wrapper:true", int64(perFlow[world.FlowWrapper]))
 	for _, st := range enrollStateKinds {
 		r.Require("state_or_params:"+st, n/3)
